@@ -88,6 +88,17 @@ Theorem C11_retention : forall d0 pre txn t0 mid a,
 Proof. exact retention_monotone. Qed.
 Print Assumptions C11_retention.
 
+(* the same without any order among the intermediate clock readings (as
+   C11_pinned_window): while every clock reading lies in [t0, t0 + ttl] the
+   version current at t0 is retained, with the data it carried at t0 *)
+Theorem C11_retention_window : forall d0 pre txn t0 mid,
+  lookup txn (pins (after (init d0) pre)) = None ->
+  Forall (fun a => t0 <= time_of a <= t0 + ttl) mid ->
+  let s1 := after (init d0) pre in
+  lookup (cur s1) (vers (after (fst (get s1 txn t0)) mid)) = Some (last_data d0 pre).
+Proof. exact retained_window. Qed.
+Print Assumptions C11_retention_window.
+
 (* what must not change: the data stored under a version number is never
    replaced — after any further history it is the same data or the version is
    gone (and C11_retention says when it may be gone) *)
@@ -302,6 +313,24 @@ Theorem C11_response_uses_request_version :
     = snd (dispatch_resp (alive s3) id seq' status (Some D)).
 Proof. exact response_uses_request_version. Qed.
 Print Assumptions C11_response_uses_request_version.
+
+(* the request side, spelled out: processRequest's own look-up hands out the
+   version current at t0 with the data of the last committed update, and
+   processResponse's look-up hands out the very same record — request and
+   response of a transaction are processed with the same object *)
+Theorem C11_request_and_response_use_same_version :
+  forall d0 pre id seq t0 mid seq' status t,
+  smonotone (map proj (pre ++ Req id seq t0 :: mid ++ [Resp id seq' status t])) ->
+  lookup id (pins (base (acc (rafter (rinit d0) pre)))) = None ->
+  t <= t0 + ttl ->
+  let s1 := rafter (rinit d0) pre in
+  let s3 := rafter (fst (rstep s1 (Req id seq t0))) mid in
+  let D := committed_data d0 (map proj pre) in
+  snd (get (base (acc s1)) id t0)
+    = {| o_ver := cur (base (acc s1)); o_data := Some D; o_fallback := false |} /\
+  snd (get (base (acc s3)) id t) = snd (get (base (acc s1)) id t0).
+Proof. exact request_and_response_same. Qed.
+Print Assumptions C11_request_and_response_use_same_version.
 
 (* ---- non-vacuity: the hypotheses are met on concrete histories in which the
    interesting things happen ---- *)
